@@ -73,6 +73,12 @@ var rawTomlBodies = []string{
 	"[Scenario]\nName = \"x\"\n[Model]\nType = \"CatchmentModel\"\n[Model.Parameters]\nDataSourcePath = \"ds/valid/ValidModel.csv\"\nNoSuchParameter = 1",
 	"[Scenario]\nName = \"x\"\n[Model]\nType = \"CatchmentModel\"\n[Model.Parameters]\nDataSourcePath = \"ds/valid/ValidModel.csv\"\nMaximumImplementationCost = \"lots\"",
 	"[Scenario]\nName = \"x\"\n[Model]\nType = \"CatchmentModel\"\n[Model.Parameters]\nDataSourcePath = \"ds/valid/ValidModel.csv\"\nMaximumImplementationCost = -1.0",
+	"[Scenario]\nName = \"x\"\n[Model]\nType = \"CatchmentModel\"\n[Model.Parameters]\nDataSourcePath = \"ds/broken-noactions/bModel.csv\"",
+	"[Scenario]\nName = \"x\"\n[Model]\nType = \"CatchmentModel\"\n[Model.Parameters]\nDataSourcePath = \"ds/broken-nosubs/bModel.csv\"",
+	"[Scenario]\nName = \"x\"\n[Model]\nType = \"CatchmentModel\"\n[Model.Parameters]\nDataSourcePath = \"ds/broken-nogullies/bModel.csv\"",
+	"[Scenario]\nName = \"x\"\n[Model]\nType = \"CatchmentModel\"\n[Model.Parameters]\nDataSourcePath = \"ds/broken-missingfile/bModel.csv\"",
+	"[Scenario]\nName = \"x\"\n[Model]\nType = \"CatchmentModel\"\n[Model.Parameters]\nDataSourcePath = \"ds/broken-headeronly/bModel.csv\"",
+	"[Scenario]\nName = \"x\"\n[Model]\nType = \"CatchmentModel\"\n[Model.Parameters]\nDataSourcePath = \"ds/broken-emptymeta/bModel.csv\"",
 	"[Scenario]\nName = \"x\"\n[Model]\nType = \"DumbModel\"", "[Scenario]\nName = \"x\"\n[Model]\nType = \"NullModel\"", "[Scenario]\nName = \"x\"\n[Model]\nType = \"MultiObjectiveDumbModel\"",
 	"Name = \"x\"", "[Scenario]\nName = \"x\"\n[Scenario]\nName = \"y\"", "\xff\xfe", "\x00", "{\"json\":true}", "a,b\n1,2\n",
 }
